@@ -37,7 +37,9 @@ ALPHA = [("R0", "Rgate", 0.3, (0,), ()), ("R1", "Rgate", 0.4, (1,), ()), ("R2", 
          ("B01", "BSgate", 0.3, (0, 1), ()), ("B12", "BSgate", 0.3, (1, 2), ()), ("B20", "BSgate", 0.3, (2, 0), ()),
          ("M0", "MeasureHomodyne", 0.0, (0,), ()), ("M1", "MeasureHomodyne", 0.0, (1,), ()),
          ("X0>1", "Xgate", None, (1,), (0,)), ("X1>2", "Xgate", None, (2,), (1,)), ("X0>2", "Xgate", None, (2,), (0,)),
-         ("L1", "LossChannel", 0.5, (1,), ())]
+         ("L1", "LossChannel", 0.5, (1,), ()),
+         # feed-forward onto the measured mode itself (parameter dependency overlaps the targets)
+         ("X0>0", "Xgate", None, (0,), (0,)), ("B0>01", "BSgate", None, (0, 1), (0,))]
 
 
 def build(seq):
